@@ -1,5 +1,6 @@
 import UberjobModel.Lemmas.CacheHistory
 import UberjobModel.Lemmas.ExecFinal
+import UberjobModel.Lemmas.ExecFault
 /-!
 # C08 — a run cut short at any point leaves stores that the next run repairs correctly
 
@@ -88,8 +89,31 @@ theorem C08_end_to_end_cut {P : Input} {w0 : World} {F : Option Int} {c0 : Int} 
   apply FS_congr (toLPlan_wf S.wf)
   intro k hk
   have hk' : P.regOf k = some true := hk
-  have := I.untouched k (write_not_okd_of_not S h I (by rw [hk']; simp))
+  have := I.untouched k (write_not_okd_of_not S h (fun _ hh => hh) (okd_begun h) I (by rw [hk']; simp))
   simp [World.content, this]
+
+open Uberjob.Phys Uberjob.Exec in
+/-- **... including store writes that raise AFTER taking effect.**  `eff` says, arbitrarily, which failing write nodes had
+    already changed their store when they raised (the engine sees a failed node either way and runs nothing downstream);
+    `effects eff s.log` is the order in which effects took place (completed nodes and those writes).  In every reachable
+    state of every schedule the stores satisfy `Good`, every store whose write took effect — completed or not — holds its
+    from-scratch value, and every other store is untouched. -/
+theorem C08_end_to_end_fault {P : Input} {w0 : World} {F : Option Int} {c0 : Int} (S : Setup P w0 F c0)
+    (eff : Nat → Bool) {cfg : Engine.Cfg} {s : Engine.St} (h : Engine.Reach (engineGraph P) cfg s) :
+    let xc := execOrder P (initX w0 c0) (effects eff s.log)
+    Good P.toLPlan xc.w ∧
+    (∀ i, code (.write i) ∈ effects eff s.log → ∃ t, xc.w.st i = some (FS P.toLPlan w0 i, t) ∧ c0 ≤ t) ∧
+    (∀ i, code (.write i) ∉ effects eff s.log → xc.w.st i = w0.st i) ∧
+    (∀ n, n ∈ s.okd → n ∈ effects eff s.log) := by
+  intro xc
+  obtain ⟨hD1, _, I⟩ := xinv_reach_eff S eff h
+  exact ⟨I.good, I.written, I.untouched, hD1⟩
+
+/-- with `eff` = "never", the effects are exactly those of the completed nodes (an example run: the write of node 7 fails
+    with and without effect) -/
+example : Exec.effects (fun _ => false) [.begin 4, .ok 4, .begin 7, .fail 7] = [4] ∧
+    Exec.effects (fun _ => true) [.begin 4, .ok 4, .begin 7, .fail 7] = [4, 7] ∧
+    Exec.effects (fun _ => true) [.begin 4, .ok 4, .begin 5, .fail 5] = [4] := by decide
 
 /-! Non-vacuity: source 0 → unstored 1 → stored 2; a source update, a completed write, then both. -/
 def chain : LPlan := ⟨3, fun i => if i = 0 then [] else [i - 1], fun i => if i = 0 then [] else [i - 1],
